@@ -55,7 +55,7 @@ Lemma sim_dstep e s gf : R2 s gf ->
   fst (dstep Fixed e s) = fst (dsstep e gf) /\ R2 (snd (dstep Fixed e s)) (snd (dsstep e gf)).
 Proof.
   destruct gf as [g f]. intros [HR Hf]. cbn [fst snd] in HR, Hf.
-  destruct e as [e| | | |]; cbn [dstep dsstep].
+  destruct e as [e| | | | |n pents]; cbn [dstep dsstep].
   - (* a request *)
     destruct (sim_step e s g HR) as [H1 H2]. pose proof (timers_step e s g HR) as Ht.
     destruct (sstep e g) as [r g1]. cbn [fst snd] in *. split; [assumption|]. split; [assumption|].
@@ -100,6 +100,14 @@ Proof.
       assert (HR : R s g) by (unfold R; rewrite Ha; cbn; auto 10).
       destruct f; cbn [fst snd]; [split; [reflexivity|]; split; assumption|].
       cbn [sstep]. rewrite Ha. cbn [is_ghttp fst snd]. split; [reflexivity|]. split; assumption.
+  - (* a job page whose run stops at a refused entity: the entities in front of it are a job batch *)
+    destruct (sim_step (EJobBatch n pents) s g HR) as [_ H2].
+    pose proof (timers_step (EJobBatch n pents) s g HR) as Ht.
+    cbn [fst snd]. split; [reflexivity|]. split; [assumption|].
+    intros x b Hx. destruct Ht as [Ht|[[Hre _]|[_ Ht]]].
+    + rewrite Ht in Hx. discriminate.
+    + discriminate.
+    + apply (Hf x). rewrite <- Ht. assumption.
 Qed.
 
 Lemma predict_spredict h : forall s gf, R2 s gf -> predict_from Fixed h s = spredict_from h gf.
